@@ -15,6 +15,7 @@ ANCHORS = [
     "pyflyby._imports2s:SourceToSourceImportBlockTransformation.pretty_print",
     "pyflyby._imports2s:SourceToSourceFileImportsTransformation.preprocess",
     "pyflyby._imports2s:SourceToSourceFileImportsTransformation.pretty_print",
+    "pyflyby._imports2s:SourceToSourceFileImportsTransformation._ends_with_line_continuation",
     "pyflyby._imports2s:SourceToSourceFileImportsTransformation.find_import_block_by_lineno",
     "pyflyby._imports2s:SourceToSourceFileImportsTransformation.remove_import",
     "pyflyby._imports2s:SourceToSourceFileImportsTransformation._import_block_precedes_line",
@@ -30,9 +31,9 @@ ANCHORS = [
     "pyflyby._importclns:ImportSet._from_imports",
     "pyflyby._importclns:ImportSet.with_imports",
     "pyflyby._importclns:ImportSet.without_imports",
-    "pyflyby._importclns:ImportSet.by_import_as.func",
-    "pyflyby._importclns:ImportSet.conflicting_imports.func",
-    "pyflyby._importstmt:Import.split.func",
+    "pyflyby._importclns:ImportSet.by_import_as",
+    "pyflyby._importclns:ImportSet.conflicting_imports",
+    "pyflyby._importstmt:Import.split",
     "pyflyby._importstmt:Import.prefix_match",
 ]
 
@@ -251,8 +252,14 @@ def layout(r, uni=False):
             lines.append(r.choice(["", "# comment", "    # indented comment", "", "\n", "'bare string'"]))
         elif k < 0.60:
             lines.append("%s = '''multi\n# hash inside\nline'''  # tail" % name(r))
-        elif k < 0.64:
-            lines.append("%s = 1 + \\\n    2" % name(r))
+        elif k < 0.67:
+            un = "import zq_unused%d" % len(lines)               # an import nothing reads: tidy / remove_broken empty the block
+            lines.append(r.choice(["%s = 1; \\\n%s" % (name(r), un), "    # c \\\n%s" % un, "%s = 1  # c \\\n%s" % (name(r), un),
+                                   '%s = "#"; \\\n%s' % (name(r), un), "%s = \'\'\'a\n# not a comment\'\'\'; \\\n%s" % (name(r), un),
+                                   "# \\\n%s" % un, '%s = "e"  # \\\n%s' % (name(r), un)]))
+        elif k < 0.69:
+            lines.append(r.choice(["%s = 1 + \\\n    2" % name(r), "%s = 1; \\\n%s" % (name(r), imp(r)),
+                                   "%s  # type: int" % expr(r), "%s = [1]  # type: %s" % (name(r), dotted(r))]))
         else:
             lines += stmt(r, 1, 0)
     src = '\n'.join(lines)
@@ -323,6 +330,7 @@ class Capture:
         self.scan = None
         self.adds = []
         self.renders = []
+        self.conts = []         # (text, verdict) of every _ends_with_line_continuation call
         self.ids = {}
         self._sel = None
 
@@ -378,6 +386,16 @@ class Capture:
                       S.SourceToSourceFileImportsTransformation.insert_new_import_block,
                       C.ImportSet.pretty_print)
         o_pre, o_scan, o_add, o_sel, o_ins, o_pp = self._orig
+        self._o_cont = S.SourceToSourceFileImportsTransformation.__dict__.get("_ends_with_line_continuation")
+        if self._o_cont is not None:
+            o_cont = self._o_cont.__func__
+
+            def cont(text):
+                from pyflyby._file import FileText
+                res = o_cont(text)
+                cap.conts.append([str(FileText(text).joined), bool(res)])
+                return res
+            S.SourceToSourceFileImportsTransformation._ends_with_line_continuation = staticmethod(cont)
 
         def pre(self_):
             o_pre(self_)
@@ -437,6 +455,8 @@ class Capture:
          S.SourceToSourceFileImportsTransformation.select_import_block_by_closest_prefix_match,
          S.SourceToSourceFileImportsTransformation.insert_new_import_block,
          C.ImportSet.pretty_print) = self._orig
+        if self._o_cont is not None:
+            S.SourceToSourceFileImportsTransformation._ends_with_line_continuation = self._o_cont
         return False
 
 
@@ -513,6 +533,7 @@ def impl_case(c):
         r = run_tool(kind, c["src"], c.get("db", ""), flags, c.get("params"), c.get("tmap"), c.get("filename"), dbobj=dbobj)
     res.update(r)
     res["renders"] = cap.renders
+    res["conts"] = cap.conts
     res["snaps"] = [{"blocks": s, "text": t} for _, s, t in cap.snaps]
     res["scan"] = cap.scan
     res["adds"] = cap.adds
@@ -626,8 +647,31 @@ def c_flags(fl, find_unused):
                                    cm.cbool(fl.get("add_mandatory", True)))
 
 
+def really_continued(text):
+    """the rule of _ends_with_line_continuation, restated: the text ends with backslash-newline and, reading it with
+    the tokenizer, no comment ends on its last physical line"""
+    import io
+    import tokenize
+    if not text.endswith("\\\n"):
+        return False
+    last = text.count("\n")
+    try:
+        for tok in tokenize.generate_tokens(io.StringIO(text).readline):
+            if tok.type == tokenize.COMMENT and tok.end[0] == last:
+                return False
+    except (tokenize.TokenError, SyntaxError, IndentationError):
+        pass
+    return True
+
+
+def c_commented(im):
+    """texts ending in backslash-newline after which the implementation's tokenizer found a comment on the last line"""
+    return cm.clist([cm.cstr(t) for t in sorted({t for t, v in im.get("conts") or [] if t.endswith("\\\n") and not v})])
+
+
 def model_expr(c, im, cfg="repaired"):
     """The Wire.v call for one captured run, or None when the run cannot be modelled (nothing captured)."""
+    cfg = "%s %s" % (cfg, c_commented(im))
     kind = c["kind"]
     snaps = im.get("snaps") or []
     if not snaps:
@@ -677,7 +721,7 @@ def evaluate_models(cases, impl, cfg="repaired"):
     """-> list of model results (dict) or None, aligned with cases; plus per-case attribute results."""
     exprs, where = [], []
     for ci, (c, im) in enumerate(zip(cases, impl)):
-        if "__exc__" in im or "__timeout__" in im or too_big(im):
+        if "__exc__" in im or "__timeout__" in im or c.get("oracle_only") or too_big(im):
             continue
         e = model_expr(c, im, cfg)
         if e is None:
@@ -718,6 +762,9 @@ def env_checks(c, im):
                     bad.append("ImportStatement failed on a statement of an import block")
         if "".join(b["text"] for b in s["blocks"]) != s["text"]:
             bad.append("block texts do not concatenate to the input text")
+    for text, verdict in im.get("conts") or []:
+        if really_continued(text) != verdict:
+            bad.append("_ends_with_line_continuation disagrees with the tokenizer rule restated in the harness")
     for imps, text in im.get("renders") or []:
         if text != "" and not text.endswith("\n"):
             bad.append("a non-empty rendering of an import set does not end with a newline")
@@ -821,3 +868,6 @@ def count_kinds(ctx, c, im):
             ctx.bump("docstring_prologue")
     if not c["src"].endswith("\n"):
         ctx.bump("no_final_newline")
+    for text, verdict in im.get("conts") or []:
+        ctx.bump("emptied_block_after:" + ("continued line" if verdict else
+                                           "comment ending in a backslash" if text.endswith("\\\n") else "other text"))
